@@ -48,6 +48,13 @@ Definition earliest_after_ts (l : log) (t : Z) : Z :=
     else newest l + 1
   end.
 
+(* findEntryBeforeTimestamp: the entry just before the first one whose timestamp is >= t *)
+Fixpoint entry_before_ts (prev : option rec) (rs : list rec) (t : Z) : option rec :=
+  match rs with
+  | [] => prev
+  | r :: q => if t <=? r_ts r then prev else entry_before_ts (Some r) q t
+  end.
+
 (* LatestOffsetBeforeTimestamp: None = "timestamp is before the beginning of the log" *)
 Definition latest_before_ts (l : log) (t : Z) : option Z :=
   let segs := l_segs l in
@@ -55,7 +62,11 @@ Definition latest_before_ts (l : log) (t : Z) : option Z :=
   let s := if Nat.eqb idx 0 then nth_seg segs 0 else nth_seg segs (idx - 1) in
   if Nat.eqb idx 0 && (t <? match first_ts s with Some ft => ft | None => 0 end) then None
   else match entry_by_ts (s_recs s) t with
-       | Some e => Some (if r_ts e =? t then r_off e else r_off e - 1)
+       | Some e => Some (if r_ts e =? t then r_off e
+                         else match entry_before_ts None (s_recs s) t with
+                              | Some pe => r_off pe            (* the preceding entry: offsets may have gaps *)
+                              | None => r_off e - 1
+                              end)
        | None => Some (s_last s)
        end.
 
